@@ -421,10 +421,22 @@ pub fn run(rep: &'static Report) {
         rep.sample(json!({"kind":"cli-extract","locked_under":"a\\n","KESTREL_PASSWORD":"a","expect":"exit 1"}));
     }
     crate::chan::unlock(rep, "C15");
+    // "keys locked by any conforming implementation unlock and vice versa": an implementation that derives the locking key
+    // through the exported C function gets the documented scrypt(password, salt, 32768, 8, 1) for every password of the
+    // alphabet, the empty one included
+    {
+        let pws: Vec<Vec<u8>> = passwords().into_iter().map(|(_, w)| w).collect();
+        crate::c18::ffi_at_lock_parameters(rep, &pws, &salts[0]);
+        rep.extra("c_function_at_lock_parameters", json!(pws.len()));
+    }
     rep.set_exhaustive(true);
 }
 
 pub fn replay(rep: &'static Report, case: &Value) {
+    if case["via"] == "ffi" {
+        crate::c18::replay(rep, case);
+        return;
+    }
     if case["kind"] == "chan" {
         println!("  re-running the password-channel part");
         crate::chan::unlock(rep, "C15");
